@@ -559,6 +559,35 @@ func (s *sharedEntryAttributes) getRegularDeletes(deletes []DeleteEntry, aggrega
 	return deletes, nil
 }
 
+// inactiveChoiceCaseElementsToDelete returns the names of the child elements of choice cases that are not
+// (or no longer) the active case and that need to be deleted from the device: they are removed as a whole
+// if they still exist on the device (have a running value) or belong to the case that was the active
+// one according to the intended store.
+func (s *sharedEntryAttributes) inactiveChoiceCaseElementsToDelete() []string {
+	result := []string{}
+	if s.GetSchema().GetContainer() == nil {
+		return result
+	}
+	for _, v := range s.choicesResolvers {
+		if v.getBestCaseName() == "" {
+			continue
+		}
+		oldBestCaseName := v.getOldBestCaseName()
+		for _, elem := range v.GetSkipElements() {
+			inactiveChild, exists := s.childs.GetEntry(elem)
+			if exists && len(inactiveChild.GetByOwner(RunningIntentName, []*LeafEntry{})) > 0 {
+				result = append(result, elem)
+				continue
+			}
+			if oldBestCaseName != "" && v.elementToCaseMapping[elem] == oldBestCaseName {
+				result = append(result, elem)
+			}
+		}
+	}
+	slices.Sort(result)
+	return result
+}
+
 // GetDeletes calculate the deletes that need to be send to the device.
 func (s *sharedEntryAttributes) GetDeletes(deletes []DeleteEntry, aggregatePaths bool) ([]DeleteEntry, error) {
 
